@@ -447,6 +447,7 @@ func ValidateServiceNameLabel
 
 func ValidateDomainName
   ensures safe_type: err != nil ==> typeis(err, "*AddrError") && as(err, "*AddrError") != nil
+  ensures fresh_error: err != nil ==> fresh(as(err, "*AddrError"))
   ensures error_carries_input: err != nil ==> as(err, "*AddrError").Addr == old(name) && as(err, "*AddrError").Kind == AddrKindDomainName
   ensures grammar: err == nil <==> domainNameOK(old(name))
   apply_exit domFromEnd(toASCII(name), off(label) - off(toASCII(name))) when !found
@@ -521,7 +522,11 @@ func IsValidHostname
 // ASCII lower-casing (used instead of strings.ToLower by the ARPA decoders)
 spec fn lowerOf(s string, r string) bool = len(r) == len(s) && (forall i in 0..len(s): r[i] == lowerByte(s[i]))
 
+// asciiLower(s): the result of asciiToLower as a function of its argument
+spec fn asciiLower(s string) string
+
 func asciiToLower
+  result_is asciiLower
   ensures lowered: lowerOf(s, lower)
   loop 0
     invariant safe_idx: 0 <= i && i <= len(s)
@@ -665,6 +670,34 @@ spec fn trimDot(s string) string = hasSuffix(s, ".") ? s[:len(s) - 1] : s
 // the last n bytes of t equal suf up to ASCII letter case
 spec fn suffixCI(t string, suf string) bool =
   len(t) >= len(suf) && (forall i in 0..len(suf): lowerByte(t[len(t) - len(suf) + i]) == suf[i])
+
+// The two prefix decoders accept nothing that is not a valid domain name
+// once one optional trailing dot is removed (their full "accepts exactly"
+// statement is not proved at this level, see the per-family functions).
+// PrefixFromReversedAddr, IPv6 side complete (t = the lower-cased name without
+// the optional trailing dot): a valid name that ends in ip6.arpa is accepted
+// iff it is at most 72 bytes of one-hex-digit labels before the suffix (the
+// 72-byte form being a full address), and then denotes that prefix.
+func PrefixFromReversedAddr
+  from ValidateDomainName only grammar, safe_type, fresh_error
+  from asciiToLower nothing
+  from subnetFromReversedV6 only accepts, bits, address
+  ensures valid_name: err == nil ==> domainNameOK(trimDot(old(arpa)))
+  ensures v6_accepts: (let t = asciiLower(trimDot(old(arpa))) in
+    domainNameOK(trimDot(old(arpa))) && hasSuffix(t, "ip6.arpa") && !hasSuffix(t, "in-addr.arpa") ==>
+    (err == nil <==> (len(t) <= 72 && v6NetOK(t))))
+  ensures v6_prefix: (let t = asciiLower(trimDot(old(arpa))) in
+    err == nil && hasSuffix(t, "ip6.arpa") && !hasSuffix(t, "in-addr.arpa") ==>
+    prefBits(p) == 4 * ((len(t) - 8) / 2) && !addrIs4(prefAddr(p)) &&
+    (forall i in 0..16: addrByte(prefAddr(p), i) == v6NetByte(t, i, (len(t) - 8) / 2)))
+
+func ExtractReversedAddr
+  from ValidateDomainName only grammar, safe_type, fresh_error
+  from asciiToLower nothing
+  from subnetFromReversedV6 nothing
+  from indexFirstV6Label nothing
+  from indexFirstV4Label nothing
+  ensures valid_name: err == nil ==> domainNameOK(trimDot(old(domain)))
 
 func IPFromReversedAddr
   ensures typed_error: err != nil ==> typeis(err, "*AddrError")
